@@ -30,6 +30,7 @@ EXPLANATION = (
     "decided: broadcast == element-wise evaluation, the numerical group law of the probability transform.")
 EXPLANATION += (' R-C08-9: the curve data the accessor computes with has a float element type (integer input is converted). R-C08-10: apart from the documented temporaries of the broadcaster no write reaches the curve data of the accessor.')
 EXPLANATION += (' R-C08-11: in basquin_cycles and basquin_load the object whose parameters are used is, on every path, transform_to_failure_probability(<requested probability>) of the curve.')
+EXPLANATION += (' R-C08-12: no absolute tolerance (np.isclose, rounding, small fixed thresholds / offsets) on loads or cycle numbers in the Woehler curve module (shared rule sa/tolerance.py).')
 ASSUMPTIONS = [
     "k_1, SD, ND, TN, TS positive; np.power/** follow real powers on positive bases",
     "pandas .copy() returns an independent object",
@@ -54,7 +55,7 @@ def _strip(e):
 
 
 def run(ctx):
-    for r in (_r1, _r2, _r3, _r4, _r5, _r6, _r7, _r8, _r9, _r10, _r11):
+    for r in (_r1, _r2, _r3, _r4, _r5, _r6, _r7, _r8, _r9, _r10, _r11, _r12):
         ctx.attempt(r)
 
 
@@ -108,6 +109,15 @@ def _float_normalised(prog, fi, e, depth=0):
                             sites.append((f2, c.args[i - off]))
             return bool(sites) and all(_float_normalised(prog, f2, a, depth + 1) for f2, a in sites)
     return False
+
+
+def _r12(ctx):
+    """R-C08-12: the Woehler curve is evaluated exactly: no closeness test, rounding or fixed small threshold on loads or cycle
+    numbers (shared rule `sa/tolerance.py`).  A load 'close to' the endurance limit that is snapped onto the knee gets a finite
+    life below the limit (k_2 = inf) and a plateau instead of the slope k_1 above it, and load(cycles(S)) returns SD instead of S."""
+    from .. import tolerance
+    ctx.rule("R-C08-12", floor=1, what="no absolute tolerance on loads or cycle numbers in the Woehler curve")
+    tolerance.run_rule(ctx, ctx.prog, ["pylife.materiallaws.woehlercurve"], "loads or cycle numbers")
 
 
 def _r9(ctx):
